@@ -23,8 +23,13 @@ RULE = (
     "action dims 1-4 (2/3/5 discrete actions), MLP / GaussianMLP (shared and separate heads) with output biases "
     "set to drawn logits (up to +-1e4, ties) / means / log-variances (up to +-100, at and beyond the clip range "
     "[-40, 4]) and output kernels scaled by 0 / 1 / 30. Non-trivial = batch shape other than (2,), or action dim "
-    ">= 2, or a clipped log-variance (softmax: batch shape other than (2,) or extreme logits). greedy: non-trivial "
-    "= the queried Q row is not constant. eps_freq / *_freq: every case is a frequency experiment over >= 2000 draws. "
+    ">= 2, or a clipped log-variance (softmax: batch shape other than (2,) or extreme logits). greedy / eps_freq: Q-tables "
+    "with 1, 2 or 3 observation axes (1-5 entries each; a pool of 19 shapes in the quick tier) and 2-5 actions, as "
+    "make_q_table builds them for Discrete and Tuple(Discrete, ...) observation spaces, the observation handed over "
+    "as the tabular loops do (an int, or a tuple of python / numpy ints indexing all observation axes); greedy: "
+    "non-trivial = the queried Q row is not constant. eps_freq: 2000 keys at the drawn epsilon plus 600 keys at "
+    "epsilon 1 on a second table per case (legal action indices, uniform over the n_actions); *_freq: every case is a "
+    "frequency experiment over >= 2000 draws. "
     "run_<dqn variant>: a history of one or two training calls: a fresh run (1000-1200 steps; 100-120 in the 'early' "
     "pattern), warm-up 0/10/25/40 % of that budget, and in 7 of 8 patterns (dqn: 3 of 4) its documented continuation on "
     "the same objects with global_step = the reported step under an extended total_timesteps, so that the continuing "
@@ -389,7 +394,46 @@ def run_gaussian_freq(case):
 
 # ------------------------------------------------------ greedy / epsilon-greedy
 
-TABLE_SHAPES = [(2, 2), (3, 4), (6, 3), (5, 2)]
+# Q-table shapes = observation axes + (n_actions,): make_q_table builds one observation axis for Discrete
+# observation spaces and one per component for Tuple(Discrete, ...) spaces (Blackjack: (32, 11, 2, 2)); the
+# tabular algorithms hand the environment's observation over unchanged: an int or a tuple of ints, so that
+# q_table[observation] is the row of action values.  Quick-tier pool (every new shape is a handful of XLA
+# compilations); axis sizes mostly differ from n_actions so that a count taken from the wrong axis shows.
+TABLE_SHAPES_ND = [
+    (3, 2, 4), (2, 5, 3), (2, 3, 2, 4), (5, 1, 2), (3, 5, 2, 2), (1, 4, 5), (4, 3, 2), (2, 2, 5, 3), (3, 3, 3),
+    (4, 1, 3, 5), (5, 4, 3, 2), (1, 1, 1, 2), (2, 4, 3),
+    (2, 2), (3, 4), (6, 3), (5, 2), (1, 3), (4, 5),
+]
+OBS_FORMS = ["tuple", "np_tuple", "int"]  # python ints (Blackjack) / numpy integers (Tuple.sample()) / plain int
+
+
+@st.composite
+def table_cases(draw):
+    """{"shape": observation axes + [n_actions], "state": one index per observation axis, "obs_form"}."""
+    if _QUICK():
+        shape = list(draw(st.sampled_from(TABLE_SHAPES_ND)))
+    else:
+        # 1-3 observation axes of 1-5 entries, 2-5 actions (two of three cases), or a pool shape
+        n_axes = draw(st.sampled_from([2, 3, 1]))
+        free = [draw(st.sampled_from([3, 5, 1, 2, 4])) for _ in range(n_axes)] + [draw(st.sampled_from([4, 2, 3, 5]))]
+        pooled = list(draw(st.sampled_from(TABLE_SHAPES_ND)))
+        shape = free if draw(st.sampled_from([True, True, False])) else pooled
+    state = [draw(st.sampled_from(list(range(n))[::-1])) for n in shape[:-1]]
+    form = draw(st.sampled_from(OBS_FORMS if len(shape) == 2 else OBS_FORMS[:2]))
+    return {"shape": shape, "state": state, "obs_form": form}
+
+
+def _table_obs(case):
+    """(index tuple for the numpy reference, observation as the tabular algorithms pass it)."""
+    state = case["state"]
+    idx = tuple(state) if isinstance(state, list) else (int(state),)
+    form = case.get("obs_form", "int")
+    if form == "int":
+        assert len(idx) == 1
+        return idx, int(idx[0])
+    if form == "np_tuple":
+        return idx, tuple(np.int64(i) for i in idx)
+    return idx, tuple(int(i) for i in idx)
 
 
 def _table(shape, seed, scale, levels):
@@ -398,20 +442,28 @@ def _table(shape, seed, scale, levels):
     return (r.integers(-levels, levels + 1, size=shape) * scale).astype(np.float32)
 
 
+def _table_labels(case):
+    shape = case["shape"]
+    return [f"obs-axes={len(shape) - 1}", "obs=" + case.get("obs_form", "int")] + (
+        ["shape=" + "x".join(str(n) for n in shape)] if _QUICK() else []) + [
+            "an-obs-axis-longer-than-A" if max(shape[:-1]) > shape[-1] else "no-obs-axis-longer-than-A",
+            "axis1-is-A" if len(shape) == 2 else ("axis1=A" if shape[1] == shape[-1] else "axis1!=A")]
+
+
 @st.composite
 def greedy_cases(draw):
-    shape = draw(st.sampled_from(TABLE_SHAPES))
     na = draw(st.sampled_from([2, 3, 5]))
-    return {
-        "shape": list(shape), "t_seed": draw(gen.seeds()), "t2_seed": draw(gen.seeds()),
+    case = draw(table_cases())
+    case.update({
+        "t_seed": draw(gen.seeds()), "t2_seed": draw(gen.seeds()),
         "scale": draw(st.sampled_from([1.0, 100.0, 1e-3])), "levels": draw(st.sampled_from([1, 2, 50])),
-        "state": draw(st.integers(0, shape[0] - 1)),
         "key_seeds": draw(st.lists(gen.seeds(), min_size=4, max_size=4)),
         "q_obs_dim": draw(st.sampled_from([1, 3])), "q_actions": na, "q_hidden": draw(st.sampled_from([[], [4]])),
         "q_seed": draw(gen.seeds()), "q_kscale": draw(st.sampled_from([0.0, 1.0, 30.0])),
         "q_bias": draw(st.lists(st.sampled_from([0.0, 1.0, -1.0, 2.0, 1e4, -1e4]), min_size=na, max_size=na)),
         "obs_seed": draw(gen.seeds()),
-    }
+    })
+    return case
 
 
 def run_greedy(case):
@@ -420,29 +472,37 @@ def run_greedy(case):
     from rl_blox.blox import q_policy, value_policy
 
     shape = tuple(case["shape"])
+    n_act = shape[-1]
     table = _table(shape, case["t_seed"], case["scale"], case["levels"])
     table2 = _table(shape, case["t2_seed"], case["scale"] * 3.0, 50)
-    s = case["state"]
-    row = table[s]
+    idx, s = _table_obs(case)
+    row = table[idx]
+    assert row.shape == (n_act,)
     jt, jt2 = jnp.asarray(table), jnp.asarray(table2)
 
     def is_max(a):
-        return 0 <= a < shape[1] and row[a] == row.max()
+        return 0 <= a < n_act and row[a] == row.max()
 
     g = value_policy.greedy_policy(jt, s)
     check(np.shape(g) == () and np.issubdtype(np.asarray(g).dtype, np.integer), "greedy.table.scalar_index",
-          f"{np.shape(g)} {np.asarray(g).dtype}")
-    check(is_max(int(g)), "greedy.table.returns_maximiser", lambda: f"row={row.tolist()} action={int(g)}")
+          f"{np.shape(g)} {np.asarray(g).dtype} (table {shape}, observation {s!r})")
+    check(is_max(int(g)), "greedy.table.returns_maximiser",
+          lambda: f"table {shape}, observation {s!r}: row={row.tolist()} action={int(g)}")
     for ks in case["key_seeds"]:
         key = jax.random.key(ks)
-        a0 = int(value_policy.epsilon_greedy_policy(jt, s, 0.0, key))
+        a0 = value_policy.epsilon_greedy_policy(jt, s, 0.0, key)
+        check(np.shape(a0) == (), "eps_greedy.scalar_index", f"epsilon=0: {np.shape(a0)} (table {shape}, observation {s!r})")
+        a0 = int(a0)
         check(is_max(a0) and a0 == int(g), "eps_greedy.epsilon0_is_greedy",
-              lambda: f"row={row.tolist()} action={a0} greedy={int(g)}")
-        a1 = int(value_policy.epsilon_greedy_policy(jt, s, 1.0, key))
+              lambda: f"table {shape}, observation {s!r}: row={row.tolist()} action={a0} greedy={int(g)}")
+        a1 = value_policy.epsilon_greedy_policy(jt, s, 1.0, key)
+        check(np.shape(a1) == (), "eps_greedy.scalar_index", f"epsilon=1: {np.shape(a1)} (table {shape}, observation {s!r})")
+        a1 = int(a1)
         a1b = int(value_policy.epsilon_greedy_policy(jt2, s, 1.0, key))
-        check(0 <= a1 < shape[1], "eps_greedy.epsilon1.in_range", f"{a1}")
+        check(0 <= a1 < n_act, "eps_greedy.epsilon1.in_range",
+              f"action {a1} of {n_act} (table {shape}, observation {s!r})")
         check(a1 == a1b, "eps_greedy.epsilon1_ignores_values",
-              lambda: f"same key, tables {row.tolist()} / {table2[s].tolist()}: actions {a1} vs {a1b}")
+              lambda: f"same key, tables {row.tolist()} / {table2[idx].tolist()}: actions {a1} vs {a1b}")
     # network greedy policy
     na = case["q_actions"]
     q_net = pn.make_mlp(case["q_obs_dim"], na, case["q_hidden"], case["q_seed"])
@@ -460,17 +520,20 @@ def run_greedy(case):
           lambda: f"q={qv.tolist()} action={a_np} (numpy observation)")
     nonconst = bool(row.min() < row.max())
     labels = ["row-tie" if (row == row.max()).sum() > 1 else "row-unique-max",
-              "q-tie" if (qv == qv.max()).sum() > 1 else "q-unique-max", f"shape={shape[0]}x{shape[1]}"]
+              "q-tie" if (qv == qv.max()).sum() > 1 else "q-unique-max"] + _table_labels(case)
     return Outcome(labels=labels, nontrivial=nonconst)
+
+
+EPS1_KEYS = 600  # draws with epsilon = 1 on a second table in every eps_freq case
 
 
 @st.composite
 def eps_freq_cases(draw):
-    shape = draw(st.sampled_from(TABLE_SHAPES))
-    return {"shape": list(shape), "t_seed": draw(gen.seeds()), "levels": draw(st.sampled_from([1, 50])),
-            "state": draw(st.integers(0, shape[0] - 1)),
-            "epsilon": draw(st.one_of(st.sampled_from([0.05, 0.1, 0.3, 0.5, 0.9, 1.0]), gen.f32(0.01, 0.99))),
-            "key_seed": draw(gen.seeds()), "n_keys": 2000}
+    case = draw(table_cases())
+    case.update({"t_seed": draw(gen.seeds()), "t2_seed": draw(gen.seeds()), "levels": draw(st.sampled_from([1, 50])),
+                 "epsilon": draw(st.one_of(st.sampled_from([0.3, 1.0, 0.05, 0.1, 0.5, 0.9]), gen.f32(0.01, 0.99))),
+                 "key_seed": draw(gen.seeds()), "n_keys": 2000})
+    return case
 
 
 def run_eps_freq(case):
@@ -479,28 +542,46 @@ def run_eps_freq(case):
     from rl_blox.blox import value_policy
 
     shape = tuple(case["shape"])
+    na = shape[-1]
     table = _table(shape, case["t_seed"], 1.0, case["levels"])
-    s, eps, K = case["state"], float(np.float32(case["epsilon"])), case["n_keys"]
-    row = table[s]
+    idx, s = _table_obs(case)
+    eps, K = float(np.float32(case["epsilon"])), case["n_keys"]
+    row = table[idx]
     n_max = int((row == row.max()).sum())
     jt = jnp.asarray(table)
-    keys = jax.random.split(jax.random.key(case["key_seed"]), K)
+    where = f"table {shape}, observation {s!r}"
+    keys = jax.random.split(jax.random.key(case["key_seed"]), K + EPS1_KEYS)
     acts = np.array([int(value_policy.epsilon_greedy_policy(jt, s, eps, keys[i])) for i in range(K)])
-    check(bool(np.all((acts >= 0) & (acts < shape[1]))), "eps_greedy.action_in_range", "")
-    nongreedy = int((row[acts] < row.max()).sum())
-    p = eps * (1.0 - n_max / shape[1])
+    check(bool(np.all((acts >= 0) & (acts < na))), "eps_greedy.action_in_range",
+          lambda: f"{where}: actions {sorted(set(acts.tolist()))} with {na} legal actions")
+    legal = acts[(acts >= 0) & (acts < na)]
+    nongreedy = int((row[legal] < row.max()).sum())
+    p = eps * (1.0 - n_max / na)
     lo, hi = binomtail.interval([p] * K, 1e-9)
     check(lo <= nongreedy <= hi, "eps_greedy.nongreedy_frequency",
-          lambda: f"epsilon={eps} row={row.tolist()}: {nongreedy}/{K} non-greedy, expected p={p:.4f}, admissible [{lo},{hi}]")
-    # every non-maximal action is explored equally often (random action is uniform)
-    for a in range(shape[1]):
-        if row[a] < row.max():
-            lo_a, hi_a = binomtail.interval([eps / shape[1]] * K, 1e-9 / shape[1])
+          lambda: f"{where}: epsilon={eps} row={row.tolist()}: {nongreedy}/{K} non-greedy, expected p={p:.4f}, admissible [{lo},{hi}]")
+    # every non-maximal action is explored equally often (random action is uniform); with epsilon = 1
+    # every action is
+    for a in range(na):
+        if row[a] < row.max() or eps == 1.0:
+            lo_a, hi_a = binomtail.interval([eps / na] * K, 1e-9 / na)
             ca = int((acts == a).sum())
             check(lo_a <= ca <= hi_a, "eps_greedy.random_action_uniform",
-                  lambda: f"epsilon={eps} action {a}: {ca}/{K}, expected p={eps / shape[1]:.4f}, admissible [{lo_a},{hi_a}]")
-    return Outcome(labels=[f"A={shape[1]}", "eps=1" if eps == 1.0 else "eps<1", f"maximisers={n_max}"],
-                   nontrivial=n_max < shape[1])
+                  lambda: f"{where}: epsilon={eps} action {a}: {ca}/{K}, expected p={eps / na:.4f}, admissible [{lo_a},{hi_a}]")
+    # epsilon = 1 on a second table (other values, other maximisers), fresh keys: every action is a legal
+    # action index and the actions are uniform over the n_actions, whatever the values
+    table2 = _table(shape, case.get("t2_seed", case["t_seed"] + 1), 3.0, 50)
+    jt2 = jnp.asarray(table2)
+    acts1 = np.array([int(value_policy.epsilon_greedy_policy(jt2, s, 1.0, keys[K + i])) for i in range(EPS1_KEYS)])
+    check(bool(np.all((acts1 >= 0) & (acts1 < na))), "eps_greedy.epsilon1.in_range",
+          lambda: f"{where}: actions {sorted(set(acts1.tolist()))} with {na} legal actions")
+    for a in range(na):
+        lo_a, hi_a = binomtail.interval([1.0 / na] * EPS1_KEYS, 1e-9 / na)
+        ca = int((acts1 == a).sum())
+        check(lo_a <= ca <= hi_a, "eps_greedy.epsilon1.uniform_over_actions",
+              lambda: f"{where}: epsilon=1 action {a}: {ca}/{EPS1_KEYS}, expected p={1.0 / na:.4f}, admissible [{lo_a},{hi_a}]")
+    return Outcome(labels=[f"A={na}", "eps=1" if eps == 1.0 else "eps<1", f"maximisers={n_max}"] + _table_labels(case),
+                   nontrivial=n_max < na)
 
 
 # ------------------------------------------------- exploration in training loops
@@ -889,11 +970,12 @@ SUBCHECKS = [
     SubCheck("gaussian", gaussian_cases, run_gaussian, quick=300, thorough=6000, cost=3.0, shards=6,
              rule="batch shape other than (2,), or action dim >= 2, or clipped log-variance"),
     SubCheck("greedy", greedy_cases, run_greedy, quick=150, thorough=3000, cost=1.5,
-             rule="queried Q row not constant"),
+             rule="queried Q row not constant (tables with 1-3 observation axes, tuple observations)"),
     SubCheck("softmax_freq", softmax_freq_cases, run_softmax_freq, quick=16, thorough=300, cost=1.0, shards=2,
              rule="2048 draws per case"),
     SubCheck("gaussian_freq", gaussian_freq_cases, run_gaussian_freq, quick=16, thorough=300, cost=1.0, shards=2,
              rule="2048 x d draws per case"),
     SubCheck("eps_freq", eps_freq_cases, run_eps_freq, quick=12, thorough=200, cost=8.0, shards=4,
-             shrink=False, suppress_too_slow=True, rule="2000 keys per case; row not constant"),
+             shrink=False, suppress_too_slow=True,
+             rule="2000 keys per case at the drawn epsilon + 600 at epsilon 1 (tables with 1-3 observation axes); row not constant"),
 ] + _run_subchecks()
